@@ -873,15 +873,8 @@ func c18Unmarshal(e *Env) {
 	if okval != nil {
 		for _, ref := range *okval.Referrers() {
 			if iff, ok := ref.(*ssa.If); ok {
-				fb := iff.Block().Succs[1]
-				for _, ins := range fb.Instrs {
-					if ret, ok := ins.(*ssa.Return); ok {
-						for _, rv := range ret.Results {
-							if isErrorType(rv.Type()) && !isNilConst(rv) {
-								okErr = true
-							}
-						}
-					}
+				if pathReturnsError(iff.Block().Succs[1]) {
+					okErr = true
 				}
 			}
 		}
@@ -1079,4 +1072,64 @@ func c18Chain(e *Env) {
 		ok3 = ov.params["version"] == "version"
 	}
 	r.Check(ok3, "R18.5", "internal/cmd.buildRunner#param-version", "the container parameter \"version\" is overridden with payload.version")
+}
+
+// pathReturnsError: every return reachable from block fb (entered only through the failing edge) carries a
+// non-nil error on the paths that come through fb: the returned value is a non-nil error expression, or a
+// phi whose edges from predecessors dominated by fb are all non-nil.
+func pathReturnsError(fb *ssa.BasicBlock) bool {
+	if len(fb.Preds) != 1 {
+		return false
+	}
+	var nonNil func(v ssa.Value, at *ssa.BasicBlock, depth int) bool
+	nonNil = func(v ssa.Value, at *ssa.BasicBlock, depth int) bool {
+		if depth > 4 || isNilConst(v) {
+			return false
+		}
+		phi, isPhi := v.(*ssa.Phi)
+		if !isPhi {
+			_, isCall := unwrap(v).(*ssa.Call)
+			_, isMI := v.(*ssa.MakeInterface)
+			return isCall || isMI
+		}
+		any := false
+		for i, pred := range phi.Block().Preds {
+			if fb.Dominates(pred) {
+				any = true
+				if !nonNil(phi.Edges[i], pred, depth+1) {
+					return false
+				}
+			}
+		}
+		return any
+	}
+	found := false
+	for b := range reach(fb, true) {
+		ret, ok := b.Instrs[len(b.Instrs)-1].(*ssa.Return)
+		if !ok {
+			continue
+		}
+		okRet := false
+		for _, rv := range ret.Results {
+			if isErrorType(rv.Type()) {
+				if fb.Dominates(b) {
+					okRet = !isNilConst(rv) && (nonNilSimple(rv) || nonNil(rv, b, 0))
+				} else {
+					okRet = nonNil(rv, b, 0)
+				}
+			}
+		}
+		if !okRet {
+			return false
+		}
+		found = true
+	}
+	return found
+}
+
+func nonNilSimple(v ssa.Value) bool {
+	if _, isPhi := v.(*ssa.Phi); isPhi {
+		return false
+	}
+	return !isNilConst(v)
 }
